@@ -1,0 +1,12 @@
+//go:build verif
+
+package litestream
+
+import "context"
+
+// Exported wrappers used only by the verification harness (build tag "verif").
+
+// PageMapLimited exposes pageMap with a byte budget.
+func (r *WALReader) PageMapLimited(ctx context.Context, maxBytes int64) (m map[uint32]int64, maxOffset int64, commit uint32, limited bool, err error) {
+	return r.pageMap(ctx, maxBytes)
+}
